@@ -194,3 +194,62 @@ class VInterruptOperation(FloatOperation):
         if trigger and float(trigger) > 0:
             raise KeyboardInterrupt()
         return FloatDataType(data.data)
+
+
+# ---- components WITHOUT a docstring (cls.__doc__ is None): valid, and the generated node classes around
+# ---- them must still declare types / keys and satisfy the contract catalogue (C16)
+from semantiva.data_io import DataSink, PayloadSink  # noqa: E402
+
+
+class VUndocSource(DataSource):
+    @classmethod
+    def _get_data(cls, a: float = 2.0):
+        return FloatDataType(float(a))
+
+    @classmethod
+    def output_data_type(cls):
+        return FloatDataType
+
+
+class VUndocSink(DataSink[FloatDataType]):
+    @classmethod
+    def _send_data(cls, data: FloatDataType):
+        pass
+
+    @classmethod
+    def input_data_type(cls):
+        return FloatDataType
+
+
+class VUndocPayloadSource(PayloadSource):
+    @classmethod
+    def _get_payload(cls) -> Payload:
+        return Payload(FloatDataType(4.0), ContextType({"b": 1.0}))
+
+    @classmethod
+    def output_data_type(cls):
+        return FloatDataType
+
+    @classmethod
+    def _injected_context_keys(cls):
+        return ["b"]
+
+
+class VUndocPayloadSink(PayloadSink[FloatDataType]):
+    @classmethod
+    def _send_payload(cls, payload: Payload):
+        pass
+
+    @classmethod
+    def input_data_type(cls):
+        return FloatDataType
+
+
+class VUndocProbe(FloatProbe):
+    def _process_logic(self, data, factor: float = 1.0):
+        return data.data * factor
+
+
+class VUndocOperation(FloatOperation):
+    def _process_logic(self, data, factor: float = 1.0):
+        return FloatDataType(data.data * factor)
